@@ -46,8 +46,8 @@ func init() {
 		Floor:         c09Floor,
 		MinNontrivial: 100,
 		Phases: []fw.Phase{
-			{Name: "grammar", N: func(t fw.Tier) int { return pick(t, 6000, 600000) }, Run: c09Grammar},
-			{Name: "bytes", N: func(t fw.Tier) int { return pick(t, 6000, 400000) }, Run: c09Bytes},
+			{Name: "grammar", N: func(t fw.Tier) int { return pick(t, 20000, 800000) }, Run: c09Grammar},
+			{Name: "bytes", N: func(t fw.Tier) int { return pick(t, 20000, 600000) }, Run: c09Bytes},
 		},
 		Witness: c09Witness,
 	})
